@@ -1881,6 +1881,16 @@ class C17(Oracle):
         if c['kind'] == 'build':
             data = load_cfg(c['file'])
             before = copy.deepcopy(data)
+            base = os.path.basename(c['file'])
+            if not base.startswith('coin'):
+                from gym_gridverse.gym import STRING_TO_YAML_FILE
+
+                top = os.path.join(gvenv.REPO, 'yaml', base)
+                pkg = os.path.join(gvenv.REPO, 'gym_gridverse', 'registered_envs', base)
+                if not (os.path.exists(top) and os.path.exists(pkg)) or open(top, 'rb').read() != open(pkg, 'rb').read():
+                    out.append(V('config/packaged-copy-differs', base))
+                if base not in STRING_TO_YAML_FILE.values():
+                    out.append(V('config/no-registered-id', base))
             try:
                 e1 = factory_env_from_data(data)
                 if data != before:
@@ -1959,8 +1969,13 @@ class C17(Oracle):
         if not in_grid(s2.grid, s2.agent.position):
             return out
         for name, kw, extra in [('reach_exit', {'reward_on': 3.0, 'reward_off': -1.0}, {'colour': 'blue'}), ('living_reward', {'reward': -0.25}, {'shape': (3, 3)}), ('bump_into_wall', {'reward': -2.0}, {}), ('pickndrop', {'object_type': Key, 'reward_pick': 1.5}, {'reward_drip': 9.0})]:
-            f = rf.factory(name, **kw, **extra)
-            if f(s, a, s2) != rf.reward_function_registry[name](s, a, s2, **kw):
+            try:
+                f = rf.factory(name, **kw, **extra)
+                same = f(s, a, s2) == rf.reward_function_registry[name](s, a, s2, **kw)
+            except Exception as e:
+                same = False
+                name = f'{name}: {type(e).__name__}: {e}'
+            if not same:
                 out.append(V('factory/component-by-name-differs', name))
         for name in ('reach_exit', 'bump_into_wall', 'bump_moving_obstacle'):
             if tf.factory(name, junk=1)(s, a, s2) != tf.terminating_function_registry[name](s, a, s2):
